@@ -25,6 +25,8 @@ package bifrost_http
 //@   ensures !implements(inst.GetDirective(), LookupHTTPHandler) ==> len(ret0) == 0
 // the prefix remembered for stripping is the configured prefix that matched (or none)
 //@   assert at call directive.R: stripPrefix == "" || ((stripPrefix in c.pathPrefixes) && hasPrefix(rpath, stripPrefix))
+// ... and whenever some configured prefix matches the path, a matching one is remembered (also when the regex matches too)
+//@   assert at call directive.R: (exists i int :: 0 <= i && i < len(c.pathPrefixes) && hasPrefix(rpath, c.pathPrefixes[i])) ==> (exists k int :: 0 <= k && k < len(c.pathPrefixes) && hasPrefix(rpath, c.pathPrefixes[k]) && stripPrefix == c.pathPrefixes[k])
 
 // The transform strips exactly the remembered prefix, and only when stripping is enabled.
 //@ func (*HTTPHandlerController).HandleDirective$1
